@@ -25,6 +25,11 @@ CORPUS = [
     "drop table a; alter table b rename to c; insert into d select * from c",
     "select 1",
     "",
+    # tables that no table-level edge touches (source-only / target-only statements)
+    "select * from lookup",
+    "create table fresh (id int)",
+    "insert into t values (1, 2)",
+    "insert into a select * from b; select * from lookup; create table fresh (id int); update t set c = 1",
 ]
 META = {"<default>.t1": ["id", "a", "b"], "<default>.t2": ["id", "c"], "<default>.s": ["a", "b"]}
 
